@@ -2,7 +2,9 @@
 
 from __future__ import annotations
 
+import collections
 import collections.abc as collections_abc
+import types
 import copy
 import enum
 import itertools
@@ -31,6 +33,9 @@ ASSUMPTIONS = [
 class Color(enum.IntEnum):
     RED = 1
     BIG = 10**12
+
+# parts also run by 4 threads at once in one process (runner adds the jobs; see yv/ctx.py Ctx.threaded)
+SHARED = [("random", {"n": 6000}, {"n": 100000})]
 
 
 def plan(tier, seed):
@@ -83,6 +88,11 @@ def ref_parse_plain(qs, decode):
     return out
 
 
+# every Mapping flavour takes the mapping route: list/tuple values expand to repeated keys
+EXTRA_MAPPINGS = ("odict", "ddict", "mproxy", "mdproxy")
+MAPPING_FORMS = ("dict", "mdict", "cimdict", "kwargs", "mapping") + EXTRA_MAPPINGS
+
+
 def arg_pairs(form, arg, op):
     """Expected list(s) of pairs contributed by the argument: returns a list of
     alternatives (each a list of pairs); raises Reject."""
@@ -91,7 +101,7 @@ def arg_pairs(form, arg, op):
         if "%" in arg and op in ("update_query", "mod"):
             alts.append(ref_parse_plain(arg, True))
         return alts
-    if form in ("dict", "mdict", "cimdict", "kwargs", "mapping"):
+    if form in MAPPING_FORMS:
         items = list(arg.items())
         out = []
         for k, v in items:
@@ -164,6 +174,18 @@ def build_arg(form, pairs):
 
     if form == "mapping":
         return ROMapping(pairs)
+    if form == "odict":
+        return collections.OrderedDict(pairs)
+    if form == "ddict":
+        d = collections.defaultdict(list)
+        d.update(dict(pairs))
+        return d
+    if form == "mproxy":
+        return types.MappingProxyType(dict(pairs))
+    if form == "mdproxy":
+        from multidict import MultiDictProxy
+
+        return MultiDictProxy(MultiDict(pairs))
     if form == "str":
         return "&".join(f"{k}={v}" for k, v in pairs)
     if form == "dict" or form == "kwargs":
@@ -189,7 +211,7 @@ def snapshot(arg):
 def same_arg(a, b):
     from multidict import MultiDict
 
-    if isinstance(a, ROMapping):
+    if isinstance(a, (ROMapping, types.MappingProxyType)):
         return list(a.items()) == list(b.items()) or repr(list(a.items())) == repr(list(b.items()))
     if isinstance(a, MultiDict.__mro__[0]) or hasattr(a, "getall"):
         return list(a.items()) == list(b.items())
@@ -218,6 +240,8 @@ def run_case(ctx, old_qs, op, form, arg, sig_extra=(), base_text="http://example
     old = ref_parse_plain(old_qs, True)
     got_old = guarded(lambda: list(u.query.items()))
     case = {"url": url_text, "op": op, "form": form, "arg": _argjson(arg)}
+    if form in EXTRA_MAPPINGS or form == "mapping":
+        case["pairs"] = _argjson(list(arg.items()))
     if encoded:
         case["encoded"] = True
     if got_old != old:
@@ -289,7 +313,7 @@ def run_case(ctx, old_qs, op, form, arg, sig_extra=(), base_text="http://example
         if mode == "exact":
             err = None if got == alt else f"query pairs {got!r} != model {alt!r}"
         else:
-            empties = [k for k, v in arg.items() if isinstance(v, (list, tuple)) and not v] if form in ("dict", "mdict", "cimdict", "kwargs", "mapping") else []
+            empties = [k for k, v in arg.items() if isinstance(v, (list, tuple)) and not v] if form in MAPPING_FORMS else []
             err = check_update(old, alt, got, extra_keys=empties)
         if err is None:
             break
@@ -375,6 +399,15 @@ def run_kernel(ctx):
                         if op == "mod" and form == "kwargs":
                             continue
                         run_case(ctx, old, op, form, build_arg(form, new), ("k2",))
+    # list/tuple VALUES in every Mapping flavour (a dict is only one of them) x every operation
+    for form in ("dict", "kwargs", "mapping", "odict", "ddict", "mproxy", "mdict", "mdproxy"):
+        for vals in ([("a", [1, "2&3"])], [("a", ("x",)), ("b", "y")], [("c", ["n0", "n1", "n2"]), ("a", 7)], [("a", "s"), ("b", [1.5, "z"])], [("a", "n0"), ("c", "n1")]):
+            for old in ("", "a=o0&b=o1", "a=o0&a=o1&c=o2"):
+                for op in ("with_query", "extend_query", "update_query", "mod"):
+                    i += 1
+                    if not ctx.mine(i) or (op == "mod" and form == "kwargs"):
+                        continue
+                    run_case(ctx, old, op, form, build_arg(form, vals), ("lv", form))
     # every way a key can be SPELLED in a parsed (or encoded=True) receiver: the named key is the decoded text
     spell = {
         "a b": ["a%20b", "a+b"], "k;": ["k;", "k%3B", "k%3b"], "a": ["a", "%61"], "é": ["é", "%C3%A9", "%c3%a9"], "k+": ["k%2B", "k%2b"], "k&": ["k%26"], "k=": ["k%3D", "k%3d"],
@@ -447,27 +480,27 @@ def run_random(ctx):
             arg = tuple(key() for _ in range(r.randint(0, 3)))
             run_case(ctx, old, op, "args", arg, ("r",))
             continue
-        form = r.choice(["str", "dict", "mdict", "cimdict", "list", "tuple", "kwargs", "none", "mapping"])
+        form = r.choice(["str", "dict", "mdict", "cimdict", "list", "tuple", "kwargs", "none", "mapping", "odict", "ddict", "mproxy", "mdproxy"])
         n = r.randint(0, 3)
         if form == "none":
             arg = None
         elif form == "str":
             arg = "&".join(key().replace("&", "").replace("=", "") + ("=" + sval().replace("&", "") if r.random() < 0.85 else "") for _ in range(n))
             arg = arg.replace("#", "")
-        elif form in ("dict", "kwargs", "mapping"):
+        elif form in ("dict", "kwargs", "mapping", "odict", "ddict", "mproxy"):
             arg = {}
             for _ in range(n):
-                k = key() if form == "dict" else r.choice(["a", "b", "c", "d", "é", "k_1"])
+                k = key() if form != "kwargs" else r.choice(["a", "b", "c", "d", "é", "k_1"])
                 v = val()
-                if form == "dict" and r.random() < 0.2:
+                if r.random() < 0.2:
                     v = [val(allow_bad=r.random() < 0.2) for _ in range(r.randint(0, 3))]
                     if r.random() < 0.5:
                         v = tuple(v)
                 arg[k] = v
-            if form == "mapping":
-                arg = ROMapping(list(arg.items()))
-        elif form in ("mdict", "cimdict"):
-            arg = build_arg(form, [(key(), val()) for _ in range(n)])
+            if form not in ("dict", "kwargs"):
+                arg = build_arg(form, list(arg.items()))
+        elif form in ("mdict", "cimdict", "mdproxy"):
+            arg = build_arg(form, [(key(), val() if r.random() < 0.85 else [val(allow_bad=False), val(allow_bad=False)]) for _ in range(n)])
         else:
             arg = build_arg(form, [(key(), val()) for _ in range(n)])
         if op == "mod" and form == "kwargs":
@@ -495,6 +528,8 @@ def run(ctx):
 
         c = ctx.params["replay"]["case"]
         arg = dec_arg(c["arg"]) if not isinstance(c["arg"], str) or c["form"] == "str" else c["arg"]
+        if "pairs" in c:
+            arg = build_arg(c["form"], [tuple(p) for p in dec_arg(c["pairs"])])
         if c["form"] == "args":
             arg = tuple(arg)
         old = c["url"].split("?", 1)[1].rsplit("#", 1)[0] if "?" in c["url"] else ""
